@@ -122,7 +122,7 @@ func r04e(c *core.Ctx) {
 			if ref.Struct == nil || ref.Struct.Obj().Pkg() == nil {
 				return
 			}
-			tn := ref.Struct.Obj().Pkg().Path() + "." + ref.Struct.Obj().Name()
+			tn := ref.Struct.Obj().Pkg().Path() + "." + core.StructName(ref.Struct)
 			if tn != "net/url.URL" && tn != "net/http.Request" {
 				return
 			}
@@ -150,7 +150,7 @@ func r04e(c *core.Ctx) {
 					break
 				}
 			}
-			c.Check(fresh, fmt.Sprintf("per-request-object:%s.%s#%d", ref.Struct.Obj().Name(), ref.Name, n), st.Pos(), ex,
+			c.Check(fresh, fmt.Sprintf("per-request-object:%s.%s#%d", core.StructName(ref.Struct), ref.Name, n), st.Pos(), ex,
 				"a field of the outgoing request is written only in an object owned by this exchange (a URL allocated here; the Request copy made by WithContext) — never through the shared template", strings.Join(desc, "; "))
 		})
 	}
